@@ -245,7 +245,7 @@ func ComputeStartStateWithStride(builder *Builder, n *nfa.NFA, config StartConfi
 	// Compute state key for caching
 	// The key now includes word context - states with same NFA states but
 	// different isFromWord are DIFFERENT DFA states!
-	key := ComputeStateKeyWithWord(startStateSet, isFromWord)
+	key := computeOrderedStateKey(startStateSet, isFromWord, false)
 
 	// Create DFA state with word context and stride (ID will be assigned by caller)
 	state := NewStateWithStride(InvalidState, startStateSet, isMatch, isFromWord, stride)
